@@ -30,7 +30,7 @@ RULE = ("candidates: all 16 allow-flag combinations x gaussian reduction on/off 
 ASSUMPTIONS = ["a split component '<fw|wd|we>-<seasons>' owns the cells (season, day type) it names; fw = both day types",
                "a single-season component needs that season's allow flag; any wd/we component needs allow_separate_weekday_weekend",
                "ties in the selection criterion may resolve to any minimal candidate"]
-REQUIRED_REACH = {"candidates.sets": 100, "candidates.checked": 1000, "candidates.nontrivial_sets": 30, "routing.models": 60, "routing.dates": 40000,
+REQUIRED_REACH = {"routing.models_of_different_maps_alive_together": 40, "candidates.sets": 100, "candidates.checked": 1000, "candidates.nontrivial_sets": 30, "routing.models": 60, "routing.dates": 40000,
                   "selection.fits": 3, "selection.candidates_logged": 10, "hook.trim_combinations": 50}
 SEASONS = ["su", "sh", "wi"]
 FULL = {"su": "summer", "sh": "shoulder", "wi": "winter"}
@@ -181,21 +181,31 @@ def candidates_case(spec, keys):
 
 
 def routing_case(spec, keys):
+    """Models of two different (season, weekday) maps are built alternately FIRST and used afterwards, so every model is used
+    after another model with another map was constructed in the same process (routing is 'under the model's own settings')."""
     import opendsm.eemeter as em
     rng = rng_for(spec["seed"], ID, 2, spec["n"])
-    st = B.settings_dump("current", **MAPS[spec["map"]]) if MAPS[spec["map"]] else B.settings_dump("current")
     months = ["january", "february", "march", "april", "may", "june", "july", "august", "september", "october", "november", "december"]
     days = ["monday", "tuesday", "wednesday", "thursday", "friday", "saturday", "sunday"]
-    season_of = {i + 1: st["season"][m] for i, m in enumerate(months)}
-    daytype_of = {i: ("wd" if st["weekday_weekend"][d] == "weekday" else "we") for i, d in enumerate(days)}
     short = {"summer": "su", "shoulder": "sh", "winter": "wi"}
-    n = 0
-    for split in spec["splits"]:
+    built = []
+    for j, split in enumerate(spec["splits"]):
+        mp = spec["map"] if j % 2 == 0 else spec.get("other_map", spec["map"])
+        st = B.settings_dump("current", **MAPS[mp]) if MAPS[mp] else B.settings_dump("current")
         subs = {}
-        for j, comp in enumerate(split.split("__")):
+        for jj, comp in enumerate(split.split("__")):
             tc = dict(T_min=0.0, T_max=100.0, T_min_seg=10.0, T_max_seg=90.0)
-            subs[comp] = dict(coefficients=dict(B.NONE, model_type="tidd", intercept=100.0 * (j + 1)), temperature_constraints=tc, f_unc=1.0)
+            subs[comp] = dict(coefficients=dict(B.NONE, model_type="tidd", intercept=100.0 * (jj + 1)), temperature_constraints=tc, f_unc=1.0)
         m = em.DailyModel.from_dict(B.make_doc(subs, st, tz=spec["tz"]))
+        if j % 3 == 2:
+            m = em.DailyModel.from_json(m.to_json())            # a stored model routes like the one it was stored from
+        built.append((split, mp, st, subs, m))
+    if len(set(b[1] for b in built)) > 1:
+        I.reach("routing.models_of_different_maps_alive_together", len(built))
+    n = 0
+    for split, mp, st, subs, m in built:
+        season_of = {i + 1: st["season"][mm] for i, mm in enumerate(months)}
+        daytype_of = {i: ("wd" if st["weekday_weekend"][d] == "weekday" else "we") for i, d in enumerate(days)}
         owner = {}
         for comp in split.split("__"):
             for c in cells_of(comp):
@@ -209,21 +219,22 @@ def routing_case(spec, keys):
             if len(p) != len(idx) or p.index.has_duplicates or not p.index.equals(idx):
                 missing = len(idx.difference(p.index))
                 dup = int(p.index.duplicated().sum())
-                add("date-predicted-zero-or-two-times", "split %r (%s map): %d dates are not predicted and %d dates are predicted more than once in %d" % (split, spec["map"], missing, dup, year),
-                    split=split, map=spec["map"])
+                add("date-predicted-zero-or-two-times", "split %r (%s map): %d dates are not predicted and %d dates are predicted more than once in %d" % (split, mp, missing, dup, year),
+                    split=split, map=mp)
                 continue
             for ts, got, val in zip(idx, p["model_split"].tolist(), p["predicted"].tolist()):
                 cell = (short[season_of[ts.month]], daytype_of[ts.dayofweek])
                 exp = owner[cell]
                 if got != exp:
-                    add("date-routed-to-wrong-submodel", "%s (%s, %s) was predicted by %r, its cell belongs to %r (split %r, %s map)" % (
-                        ts.date(), season_of[ts.month], "weekday" if cell[1] == "wd" else "weekend", got, exp, split, spec["map"]), split=split, map=spec["map"])
+                    add("date-routed-to-wrong-submodel", "%s (%s, %s) was predicted by %r, its cell belongs to %r (split %r, %s map%s)" % (
+                        ts.date(), season_of[ts.month], "weekday" if cell[1] == "wd" else "weekend", got, exp, split, mp,
+                        "; models with the %s map were constructed in between" % spec["other_map"] if spec.get("other_map") else ""), split=split, map=mp)
                     break
                 if val != subs[exp]["coefficients"]["intercept"]:
                     add("model_split-label-disagrees-with-prediction", "%s labelled %r but predicted %r" % (ts.date(), got, val), split=split)
                     break
         if "__" in split:
-            keys.add("route|%s|%s" % (split, spec["map"]))
+            keys.add("route|%s|%s" % (split, mp))
         n += 2
     return n
 
@@ -268,7 +279,12 @@ def selection_case(spec, keys):
             if abs(exp - got) > 1e-9 * max(1.0, abs(exp)):
                 add("criterion-is-not-the-modified-bic", "candidate %r: criterion %.12g, modified BIC of (wSSE, N, K) = %.12g" % (combo, got, exp))
                 break
-    # routing of the fitted model on its own baseline and on a reporting year
+    # routing of the fitted model on its own baseline, after other models with other maps were constructed in the process
+    import opendsm.eemeter as em
+    em.DailyModel()
+    em.DailyModel(settings={"weekday_weekend": {"friday": "weekend", "sunday": "weekday"}, "season": {"april": "winter"}})
+    em.BillingModel()
+    I.reach("selection.other_models_constructed_before_routing")
     p = m.predict(data, ignore_disqualification=True)
     st = m.settings
     for ts, got in zip(p.index, p["model_split"].tolist()):
@@ -295,9 +311,11 @@ def gen_cases(tier, seed):
             k += 1
     splits = B.all_split_strings()
     chunk = 12
-    for mp in (["default", "shifted", "weekend3", "midweek-weekend"] if not q else ["default", "shifted"]):
+    pairs = [("default", "weekend3"), ("shifted", "midweek-weekend")] if q else \
+        [("default", "weekend3"), ("shifted", "midweek-weekend"), ("weekend3", "no-weekend"), ("midweek-weekend", "default"), ("two-season", "shifted"), ("no-weekend", "one-season")]
+    for mp, other in pairs:
         for i in range(0, len(splits), chunk):
-            cases.append(dict(kind="routing", map=mp, splits=splits[i:i + chunk], tz=["UTC", "America/Chicago", "Australia/Sydney"][(i // chunk) % 3], n=k))
+            cases.append(dict(kind="routing", map=mp, other_map=other, splits=splits[i:i + chunk], tz=["UTC", "America/Chicago", "Australia/Sydney"][(i // chunk) % 3], n=k))
             k += 1
     nf = 4 if q else 48
     for i in range(nf):
